@@ -110,7 +110,30 @@ def check(prog, rep, tier):
                     if m != (0xFF << (8 - r)) & 0xFF:
                         bad = (r, 'mask 0x%02x, expected 0x%02x' % (m, (0xFF << (8 - r)) & 0xFF))
                         break
-                # guarded by remainder > 0
+                # the masked element must be the last *received* octet: between the creation of the
+                # list and the mask nothing may grow it (padding comes afterwards)
+                lst = src_of(n.target.value) if isinstance(n.target, ast.Subscript) else None
+                if bad is None and lst is not None:
+                    grows = []
+                    for st2 in ast.walk(f.node):
+                        if getattr(st2, 'lineno', 10 ** 9) >= n.lineno:
+                            continue
+                        if isinstance(st2, ast.Assign) and any(src_of(t) == lst for t in st2.targets) and \
+                                isinstance(st2.value, ast.BinOp) and isinstance(st2.value.op, ast.Add) and \
+                                lst in src_of(st2.value):
+                            grows.append(st2)
+                        if isinstance(st2, ast.AugAssign) and src_of(st2.target) == lst and isinstance(st2.op, ast.Add):
+                            grows.append(st2)
+                        if isinstance(st2, ast.Call) and isinstance(st2.func, ast.Attribute) and \
+                                src_of(st2.func.value) == lst and st2.func.attr in ('append', 'extend', 'insert'):
+                            grows.append(st2)
+                    # only statements inside the same loop body count
+                    loop = [w for w in ast.walk(f.node) if isinstance(w, ast.While)
+                            and any(x is n for x in ast.walk(w))]
+                    grows = [g for g in grows if loop and any(x is g for x in ast.walk(loop[0]))]
+                    if grows:
+                        bad = (0, 'the octet list is padded (%s) before the mask is applied, so the mask hits a '
+                                  'padding octet instead of the last received one' % src_of(grows[0])[:60])
                 key = 'mask:%s' % f.qualname
                 if bad:
                     rep.bad('R09.b', key, file=f.file, line=n.lineno, func=f.qualname,
